@@ -14,7 +14,7 @@
    the checker above (C03_bisim_check_sound). *)
 From Coq Require Import List NArith Bool.
 From RPFT Require Import Base.Sexp Base.SexpEq Base.Result Gen.Tables Flow.Lts Flow.Flow Flow.FlowFacts.
-From RPFT Require Comp.Blocks Comp.BlocksFacts Comp.Desugar Comp.DesugarFacts Comp.DesugarWitness Cell.Cell Tmpl.MiniJinja Tmpl.RowLoop Tmpl.TmplFacts Tmpl.RowLoopFacts.
+From RPFT Require Comp.Blocks Comp.BlocksFacts Comp.Desugar Comp.DesugarFacts Comp.DesugarWitness Cell.Cell Tmpl.MiniJinja Tmpl.RowLoop Tmpl.TmplFacts Tmpl.RowLoopFacts Base.ODict Base.PyStr Index.Args Tmpl.Insert Comp.InsertArgs Comp.InsertArgsFacts.
 Import ListNotations.
 
 Theorem C03_bisim_check_sound : forall f g,
@@ -441,3 +441,135 @@ Example C03_desugar_fails_iff_needs_tolerant_remove_refuted :
   /\ Desugar.desugar Strict DesugarWitness.ex_ctx DesugarWitness.ex_rows = Blocks.ROk DesugarWitness.ex_out.
 Proof. exact DesugarWitness.remove_not_tolerant_refuted. Qed.
 Print Assumptions C03_desugar_fails_iff_needs_tolerant_remove_refuted.
+
+
+(* ==== insert_as_block: "an inserted template replaced by a block containing that template's rows instantiated with its
+   own data row and arguments" — the ARGUMENTS, typed (Comp/InsertArgs.v).  The cell of an insert row may be a native
+   template: the objects it yields (0, False, None, [], {} among them) are the arguments.  [insert_context] is the
+   context the inserted template's FlowParser is built with, as a function of the declarations, the data row, the
+   inserting context and the argument cell; the harness compares it with the implementation's for every insertion of
+   every generated workbook (harness/c03_insert.py), and the workbooks with their desugared forms. ==== *)
+
+(* complete characterisation of Args.map_template_arguments_to_context over objects *)
+Theorem C03_inserted_template_context_characterised : forall sheets defs args (c c' : InsertArgs.tctx),
+  InsertArgs.bind_args sheets defs args c = Ok c' <->
+  NoDup (map Args.ad_name defs) /\ (forall n, In n (map Args.ad_name defs) -> ODict.oget PyStr.str_eqb c n = None)
+  /\ exists l, InsertArgsFacts.bound_all sheets (InsertArgsFacts.pairs defs args) = Some l /\ c' = c ++ l.
+Proof. exact InsertArgsFacts.bind_args_ok_iff. Qed.
+Print Assumptions C03_inserted_template_context_characterised.
+
+(* its own arguments: the argument given at a position is the value the template is instantiated with, whatever its
+   type and whatever its truth value — unless it is the empty string *)
+Theorem C03_given_argument_reaches_inserted_template : forall sheets defs args (c c' : InsertArgs.tctx) i d,
+  InsertArgs.bind_args sheets defs args c = Ok c' -> nth_error defs i = Some d ->
+  PyStr.str_eqb (Args.ad_type d) sheet_type_kw = false ->
+  nth i args (MiniJinja.VStr []) <> MiniJinja.VStr [] ->
+  ODict.oget PyStr.str_eqb c' (Args.ad_name d) = Some (nth i args (MiniJinja.VStr [])).
+Proof. exact InsertArgsFacts.given_argument_reaches_template. Qed.
+Print Assumptions C03_given_argument_reaches_inserted_template.
+
+Theorem C03_falsy_argument_is_not_replaced_by_default : forall sheets defs args (c c' : InsertArgs.tctx) i d,
+  InsertArgs.bind_args sheets defs args c = Ok c' -> nth_error defs i = Some d ->
+  PyStr.str_eqb (Args.ad_type d) sheet_type_kw = false ->
+  InsertArgsFacts.falsy_object (nth i args (MiniJinja.VStr [])) ->
+  ODict.oget PyStr.str_eqb c' (Args.ad_name d) = Some (nth i args (MiniJinja.VStr [])).
+Proof. exact InsertArgsFacts.falsy_argument_is_kept. Qed.
+Print Assumptions C03_falsy_argument_is_not_replaced_by_default.
+
+Theorem C03_only_the_empty_string_is_a_blank_argument :
+  (forall v, InsertArgs.is_blank v = true <-> v = MiniJinja.VStr [])
+  /\ (forall v, InsertArgsFacts.falsy_object v -> InsertArgs.is_blank v = false)
+  /\ InsertArgsFacts.falsy_object (MiniJinja.VInt Z0) /\ InsertArgsFacts.falsy_object (MiniJinja.VBool false)
+  /\ InsertArgsFacts.falsy_object MiniJinja.VNone /\ InsertArgsFacts.falsy_object (MiniJinja.VList [])
+  /\ InsertArgsFacts.falsy_object (MiniJinja.VTuple []) /\ InsertArgsFacts.falsy_object (MiniJinja.VDict []).
+Proof.
+  exact (conj InsertArgsFacts.is_blank_iff (conj InsertArgsFacts.falsy_object_not_blank InsertArgsFacts.falsy_objects)).
+Qed.
+Print Assumptions C03_only_the_empty_string_is_a_blank_argument.
+
+Theorem C03_blank_argument_takes_declared_default : forall sheets defs args (c c' : InsertArgs.tctx) i d,
+  InsertArgs.bind_args sheets defs args c = Ok c' -> nth_error defs i = Some d ->
+  PyStr.str_eqb (Args.ad_type d) sheet_type_kw = false ->
+  nth i args (MiniJinja.VStr []) = MiniJinja.VStr [] ->
+  ODict.oget PyStr.str_eqb c' (Args.ad_name d) = Some (MiniJinja.VStr (Args.ad_default d)) /\ Args.ad_default d <> [].
+Proof. exact InsertArgsFacts.typed_blank_takes_default. Qed.
+Print Assumptions C03_blank_argument_takes_declared_default.
+
+Theorem C03_missing_required_argument_is_reported : forall sheets defs args (c : InsertArgs.tctx) i d,
+  nth_error defs i = Some d -> Args.ad_default d = [] -> nth i args (MiniJinja.VStr []) = MiniJinja.VStr [] ->
+  forall c', InsertArgs.bind_args sheets defs args c <> Ok c'.
+Proof. exact InsertArgsFacts.typed_missing_required_is_error. Qed.
+Print Assumptions C03_missing_required_argument_is_reported.
+
+(* its own data row: the binding leaves it as it is *)
+Theorem C03_data_row_kept_by_argument_binding : forall sheets defs args (c c' : InsertArgs.tctx) k v,
+  InsertArgs.bind_args sheets defs args c = Ok c' -> ODict.oget PyStr.str_eqb c k = Some v ->
+  ODict.oget PyStr.str_eqb c' k = Some v.
+Proof. exact InsertArgsFacts.typed_context_kept. Qed.
+Print Assumptions C03_data_row_kept_by_argument_binding.
+
+Theorem C03_surplus_arguments_ignored : forall sheets defs args extra (c : InsertArgs.tctx),
+  (length defs <= length args)%nat ->
+  InsertArgs.bind_args sheets defs (args ++ extra) c = InsertArgs.bind_args sheets defs args c.
+Proof. exact InsertArgsFacts.typed_extra_args_ignored. Qed.
+Print Assumptions C03_surplus_arguments_ignored.
+
+(* on what a content-index row or a text cell can hold (strings, nested lists of strings) the typed binding IS the
+   binding of C12's model (Index/Args.v): C12's theorems speak about the same function *)
+Theorem C03_typed_binding_extends_string_binding :
+  forall (D : Type) (inj : D -> MiniJinja.value) (rows_value : Args.dsheet D -> MiniJinja.value)
+         sheets defs (args : list Cell.nv) (c : Args.ctx D),
+  InsertArgs.bind_args (InsertArgsFacts.sheets_value rows_value sheets) defs (map RowLoop.nv_to_value args)
+                       (InsertArgsFacts.ctx_value inj rows_value c)
+  = InsertArgsFacts.res_value inj rows_value (Args.map_template_arguments_to_context sheets defs args c).
+Proof. exact (@InsertArgsFacts.typed_binding_extends_string_binding). Qed.
+Print Assumptions C03_typed_binding_extends_string_binding.
+
+(* ... and the context C16's insert model (Tmpl/Insert.v: one declared argument, no default, a string) builds is this binding *)
+Theorem C03_typed_binding_agrees_with_insert_model : forall (t : Insert.template) (a : Sexp.str) c,
+  Insert.block_context t a = Ok c ->
+  InsertArgs.bind_args [] (InsertArgsFacts.defs_of_template t) [MiniJinja.VStr a] [] = Ok c.
+Proof. exact InsertArgsFacts.block_context_is_typed_binding. Qed.
+Print Assumptions C03_typed_binding_agrees_with_insert_model.
+
+(* nothing of the inserting flow reaches the inserted template except through the value of the argument cell *)
+Theorem C03_inserted_template_sees_inserting_flow_only_through_argument_cell :
+  forall pe pn sheets defs row o1 o2 cell,
+  InsertArgs.insert_args pe pn o1 cell = InsertArgs.insert_args pe pn o2 cell ->
+  InsertArgs.insert_context pe pn sheets defs row o1 cell = InsertArgs.insert_context pe pn sheets defs row o2 cell.
+Proof. exact InsertArgsFacts.insert_context_only_through_cell. Qed.
+Print Assumptions C03_inserted_template_sees_inserting_flow_only_through_argument_cell.
+
+(* the loop and its unrolled form: `begin_for k in <elements>` around `insert_as_block t` with template_arguments
+   {@ [k] @}.  [cxs]: the inserting contexts of the successive iterations (each binds k to its element, whatever else
+   it holds).  The k-th insertion is instantiated exactly as the unrolled row whose argument list is [e_k] *)
+Theorem C03_loop_hands_each_element_to_inserted_template :
+  forall pe pn sheets defs row (cxs : list InsertArgs.tctx) (es : list MiniJinja.value),
+  Forall2 (fun cx e => MiniJinja.lookup cx InsertArgsFacts.kname = Some e /\ MiniJinja.has_undef e = false) cxs es ->
+  map (fun cx => InsertArgs.insert_context pe pn sheets defs row cx (Some InsertArgsFacts.cell_k)) cxs
+  = map (fun e => InsertArgs.bind_args sheets defs [e] row) es.
+Proof. exact InsertArgsFacts.loop_hands_each_element_to_template. Qed.
+Print Assumptions C03_loop_hands_each_element_to_inserted_template.
+
+(* ... over range(n): the template is instantiated with 0, 1, ..., n-1 — the first index is not the declared default *)
+Theorem C03_range_loop_hands_each_index_to_inserted_template : forall pe pn d row n (cxs : list InsertArgs.tctx),
+  PyStr.str_eqb (Args.ad_type d) sheet_type_kw = false -> ODict.oget PyStr.str_eqb row (Args.ad_name d) = None ->
+  Forall2 (fun cx e => MiniJinja.lookup cx InsertArgsFacts.kname = Some e) cxs (MiniJinja.zrange n) ->
+  map (fun cx => InsertArgs.insert_context pe pn [] [d] row cx (Some InsertArgsFacts.cell_k)) cxs
+  = map (fun e => Ok (row ++ [(Args.ad_name d, e)])) (MiniJinja.zrange n).
+Proof. exact InsertArgsFacts.range_loop_hands_each_index. Qed.
+Print Assumptions C03_range_loop_hands_each_index_to_inserted_template.
+
+(* a binding that asks for the argument's TRUTH VALUE (`arg or default`) instead of comparing it with "" is another
+   function: equal on every string, different on every falsy object when a default is declared *)
+Theorem C03_binding_by_truth_value_refuted :
+  (forall d a, InsertArgsFacts.falsy_object a -> Args.ad_default d <> [] ->
+     InsertArgsFacts.arg_value_by_truth d a = MiniJinja.VStr (Args.ad_default d) /\ InsertArgs.arg_value d a = a
+     /\ InsertArgs.arg_value d a <> InsertArgsFacts.arg_value_by_truth d a)
+  /\ (forall d s, InsertArgsFacts.arg_value_by_truth d (MiniJinja.VStr s) = InsertArgs.arg_value d (MiniJinja.VStr s)).
+Proof. exact (conj InsertArgsFacts.binding_by_truth_differs InsertArgsFacts.binding_by_truth_same_on_strings). Qed.
+Print Assumptions C03_binding_by_truth_value_refuted.
+
+Example C03_inserted_template_arguments_nonvacuous : InsertArgsFacts.insert_witness.
+Proof. exact InsertArgsFacts.insert_witness_holds. Qed.
+Print Assumptions C03_inserted_template_arguments_nonvacuous.
